@@ -273,13 +273,12 @@ Proof.
     + intros c Hc. apply HJ. exact Hc.
     + intros c Hc. apply HJ. exact Hc.
   - intros Za Zb.
-    apply (endpoint_limit_1 V phi (xi e g) (lo 0%nat) (hi 0%nat)).
+    refine (endpoint_limit_1 V phi (xi e g) (lo 0%nat) (hi 0%nat) (at_right (-1)) (at_left 1)
+              _ _ _ _ Za Zb).
     + apply edc. eexists. apply HV.
     + apply edc. eexists. apply HV.
     + apply prof_limits. exact Hw.
     + apply prof_limits. exact Hw.
-    + exact Za.
-    + exact Zb.
 Qed.
 Print Assumptions code_pressure_integrand_one_field.
 
